@@ -18,6 +18,7 @@ import (
 	"strings"
 	"text/scanner"
 	"time"
+	"unicode/utf8"
 
 	"github.com/vimeo/dials/parse"
 	"github.com/vimeo/dials/sources/flag/flaghelper"
@@ -518,6 +519,41 @@ func checkC15(c *Ctx) {
 			res.Add(Finding{Kind: "disagreement", What: "quote model != strconv.Quote", Case: map[string]any{"string": hexEnc(z)}, Observed: want, Model: m})
 		}
 	}
+	// strconv.Quote on ANY string, by items: the harness splits the string with the real utf8 / strconv.IsPrint, the model
+	// writes what Quote writes per item (Model/QuoteItems.lean); and the model's string-literal scanner + unquoter on the
+	// quoted BYTES (non-ASCII where a printable rune is written verbatim) against the real scanner + strconv.Unquote
+	itemsTie := func(z string) {
+		var items []string
+		for k := 0; k < len(z); {
+			rn, w := utf8.DecodeRuneInString(z[k:])
+			switch {
+			case z[k] < 0x80:
+				items = append(items, fmt.Sprintf("a%d", z[k]))
+			case rn == utf8.RuneError && w == 1:
+				items = append(items, fmt.Sprintf("b%d", z[k]))
+			case strconv.IsPrint(rn):
+				items = append(items, fmt.Sprintf("p%d", rn))
+			default:
+				items = append(items, fmt.Sprintf("e%d", rn))
+			}
+			k += w
+		}
+		q := strconv.Quote(z)
+		cs := map[string]any{"stream": "quote-items", "string": hexEnc(z), "items": strings.Join(items, " ")}
+		res.Count("quote-items/compared")
+		if m, want := c.Drv.Ask(strings.TrimSpace("ps qitems "+strings.Join(items, " "))), "ok "+hexEnc(q)+" "+hexEnc(z); m != want {
+			res.Add(Finding{Kind: "disagreement", What: "quote-items model != strconv.Quote (or the items' bytes are not the string)", Case: cs, Observed: want, Model: m})
+		}
+		tail := []string{"", ",x", " , \"y\"", ":v"}[r.Intn(4)]
+		text := q + tail
+		_, toks := run("slice", text)
+		if len(toks) > 0 {
+			want := fmt.Sprintf("ok %s %d", toks[0], len(tail))
+			if m := c.Drv.Ask("ps unqtok " + hexEnc(text)); m != want {
+				res.Add(Finding{Kind: "disagreement", What: "string-literal scanner + unquoter model on the quoted bytes != real scanner + strconv.Unquote", Case: cs, Observed: want, Model: m})
+			}
+		}
+	}
 	for i := 0; i < n3; i++ {
 		what := []string{"slice", "set", "map", "mmap"}[r.Intn(4)]
 		size := r.Intn(5)
@@ -585,6 +621,7 @@ func checkC15(c *Ctx) {
 		scanTie(what, text, toks, cs)
 		textTie(what, text, impl, cs)
 		quoteTie(genStr(r))
+		itemsTie(genStr(r))
 		if canonRes(what, impl) != canonRes(what, want) {
 			if kid != "" && isKnown("C15", kid) && impl == model {
 				res.Add(Finding{Kind: "known", KnownID: kid, What: "printed form does not parse back to the value", Case: cs, Expected: want, Observed: impl})
